@@ -207,10 +207,12 @@ pub fn issue(req: &IssueReq, key: &KeyForEncoding) -> Out<Vec<String>> {
         if prelude {
             // values that the calls below replace
             if let Some(h) = &req.header {
-                let mut other = Header::new(h.alg.clone());
-                other.typ = Some("earlier+typ".to_string());
-                other.kid = Some("earlier-kid".to_string());
-                other.cty = Some("earlier/cty".to_string());
+                // only members the final header sets too get an earlier value: whether `header()` replaces the
+                // whole header or only the members given, the final state is the same
+                let mut other = h.clone();
+                if other.typ.is_some() { other.typ = Some("earlier+typ".to_string()); }
+                if other.kid.is_some() { other.kid = Some("earlier-kid".to_string()); }
+                if other.cty.is_some() { other.cty = Some("earlier/cty".to_string()); }
                 issuer.header(other);
             }
             if req.exp_in.is_some() { issuer.expires_in_seconds(86_400 * 365); }
